@@ -1,6 +1,1634 @@
-//! Property C15: correspondence and oracle (stub: nothing built yet).
-use crate::report::Report;
+//! Property C15: requires resolve as documented and conversions keep the target.
+//!
+//! Correspondence: the Lean model (`c15.*` ops) against the real functions reached through
+//! `darklua_core::verif_hooks` with `Resources::from_memory()` as the file system.
+//! Oracle (independent of the model): the documented candidate order as a literal list of
+//! locations computed by this file's own lexical walk over *strings* (`walk`); the real locator
+//! must return the first existing one. Idempotence / lexical denotation / root preservation of
+//! the real `normalize` are judged with the same walk.
+use crate::model::{hex, Model};
+use crate::report::{hash_of, known_findings, Report, Violation};
+use crate::rng::Rng;
+use darklua_core::verif_hooks as vh;
+use darklua_core::Resources;
+use serde_json::{json, Value};
+use std::collections::{BTreeMap, BTreeSet};
+use std::path::{Component, Path, PathBuf};
 
-pub fn run(report: &mut Report, _replay: Option<&str>) {
-    report.notes.push("C15: no harness yet".to_owned());
+/// `Model::spawn` with a few retries: under heavy machine load starting the driver process
+/// can fail transiently
+fn spawn_model() -> Model {
+    for attempt in 0..6 {
+        if let Ok(m) = std::panic::catch_unwind(Model::spawn) {
+            return m;
+        }
+        std::thread::sleep(std::time::Duration::from_millis(200 * (attempt + 1)));
+    }
+    Model::spawn()
+}
+
+// ------------------------------------------------------------------------------------------
+// wire helpers
+
+fn hx(s: &str) -> String {
+    hex(s.as_bytes())
+}
+
+/// structured form of a real path: what `components()` yields
+fn wire(p: &Path) -> String {
+    use std::os::unix::ffi::OsStrExt;
+    let v: Vec<String> = p
+        .components()
+        .map(|c| match c {
+            Component::RootDir => "R".to_owned(),
+            Component::CurDir => "C".to_owned(),
+            Component::ParentDir => "P".to_owned(),
+            Component::Normal(n) => format!("N{}", &hex(n.as_bytes())[1..]),
+            Component::Prefix(_) => "X".to_owned(),
+        })
+        .collect();
+    if v.is_empty() {
+        "-".to_owned()
+    } else {
+        v.join(",")
+    }
+}
+
+fn map_wire(m: &[(String, String)]) -> String {
+    if m.is_empty() {
+        "-".to_owned()
+    } else {
+        m.iter().map(|(k, v)| format!("{}={}", hx(k), hx(v))).collect::<Vec<_>>().join(",")
+    }
+}
+
+fn list_wire(v: &[String]) -> String {
+    if v.is_empty() {
+        "-".to_owned()
+    } else {
+        v.iter().map(|s| hx(s)).collect::<Vec<_>>().join(",")
+    }
+}
+
+// ------------------------------------------------------------------------------------------
+// the oracle's own notion of where a path string leads (POSIX, no symlinks), on strings
+
+type Loc = Vec<String>;
+
+fn cwd() -> Loc {
+    vec!["r".to_owned(), "c".to_owned(), "w".to_owned()]
+}
+
+fn walk(start: &[String], path: &str) -> Loc {
+    let mut loc: Loc = if path.starts_with('/') { Vec::new() } else { start.to_vec() };
+    for seg in path.split('/') {
+        match seg {
+            "" | "." => {}
+            ".." => {
+                loc.pop();
+            }
+            s => loc.push(s.to_owned()),
+        }
+    }
+    loc
+}
+
+/// a path string for a location: relative to the virtual cwd when it lies on the cwd's side
+/// of the root (first name `r`), absolute otherwise
+fn loc_string(loc: &[String]) -> String {
+    let c = cwd();
+    let common = loc.iter().zip(c.iter()).take_while(|(a, b)| a == b).count();
+    if common == 0 {
+        return format!("/{}", loc.join("/"));
+    }
+    let mut parts: Vec<String> = Vec::new();
+    for _ in common..c.len() {
+        parts.push("..".to_owned());
+    }
+    parts.extend(loc[common..].iter().cloned());
+    if parts.is_empty() {
+        ".".to_owned()
+    } else {
+        parts.join("/")
+    }
+}
+
+// ------------------------------------------------------------------------------------------
+// cases for the locators
+
+#[derive(Clone, Debug)]
+enum Mode {
+    Path { folder: String, sources: Vec<(String, String)> },
+    Luau { aliases: Vec<(String, String)> },
+}
+
+#[derive(Clone, Debug, PartialEq, Eq)]
+enum Expect {
+    File(Loc),
+    NotFound,
+    UnknownSource,
+}
+
+#[derive(Clone, Debug)]
+struct Case {
+    mode: Mode,
+    proj: String,
+    files: Vec<String>,
+    source: String,
+    req: String,
+    /// what the documentation demands (None: no judgement, correspondence only)
+    expect: Option<Expect>,
+    /// candidates present (for statistics)
+    present: usize,
+    kind: &'static str,
+    /// explicit Lua extension in the require ("" | ".lua" | ".luau"), spelling and layout ids
+    ext: &'static str,
+    deco: usize,
+    mask: u32,
+    /// id of the listed finding whose region this case lies in ("" = inside every hypothesis)
+    region: &'static str,
+}
+
+impl Case {
+    fn to_json(&self) -> Value {
+        let (mode, folder, map) = match &self.mode {
+            Mode::Path { folder, sources } => ("path", folder.clone(), sources.clone()),
+            Mode::Luau { aliases } => ("luau", "init".to_owned(), aliases.clone()),
+        };
+        json!({"op": "find", "mode": mode, "folder": folder,
+               "map": map.iter().map(|(k, v)| json!([k, v])).collect::<Vec<_>>(),
+               "proj": self.proj, "files": self.files, "source": self.source, "req": self.req})
+    }
+
+    fn from_json(v: &Value) -> Option<Case> {
+        let map: Vec<(String, String)> = v["map"]
+            .as_array()?
+            .iter()
+            .filter_map(|e| Some((e[0].as_str()?.to_owned(), e[1].as_str()?.to_owned())))
+            .collect();
+        let mode = match v["mode"].as_str()? {
+            "path" => Mode::Path { folder: v["folder"].as_str()?.to_owned(), sources: map },
+            "luau" => Mode::Luau { aliases: map },
+            _ => return None,
+        };
+        Some(Case {
+            mode,
+            proj: v["proj"].as_str()?.to_owned(),
+            files: v["files"].as_array()?.iter().filter_map(|f| f.as_str().map(str::to_owned)).collect(),
+            source: v["source"].as_str()?.to_owned(),
+            req: v["req"].as_str()?.to_owned(),
+            expect: None,
+            present: 0,
+            kind: "replay",
+            ext: "",
+            deco: 0,
+            mask: 0,
+            region: "",
+        })
+    }
+
+    fn model_request(&self) -> String {
+        match &self.mode {
+            Mode::Path { folder, sources } => format!(
+                "c15.findp {} {} none {} {} {} {}",
+                hx(folder),
+                map_wire(sources),
+                hx(&self.proj),
+                list_wire(&self.files),
+                hx(&self.source),
+                hx(&self.req)
+            ),
+            Mode::Luau { aliases } => format!(
+                "c15.findl {} none {} {} {} {}",
+                map_wire(aliases),
+                hx(&self.proj),
+                list_wire(&self.files),
+                hx(&self.source),
+                hx(&self.req)
+            ),
+        }
+    }
+}
+
+fn json5_map(m: &[(String, String)]) -> String {
+    m.iter().map(|(k, v)| format!("{:?}: {:?}", k, v)).collect::<Vec<_>>().join(", ")
+}
+
+fn build_path_mode(folder: &str, sources: &[(String, String)]) -> vh::PathRequireMode {
+    // the configuration syntax of the documentation, through the real deserialiser
+    let text = format!(
+        "{{ module_folder_name: {:?}, sources: {{ {} }}, use_luau_configuration: false }}",
+        folder,
+        json5_map(sources)
+    );
+    json5::from_str(&text).expect("path require mode configuration")
+}
+
+fn build_luau_mode(aliases: &[(String, String)]) -> vh::LuauRequireMode {
+    let text = format!("{{ aliases: {{ {} }}, use_luau_configuration: false }}", json5_map(aliases));
+    json5::from_str(&text).expect("luau require mode configuration")
+}
+
+/// the real locator: `ok <wire>` | `err empty` | `err unknown <hex>` | `err notfound <wire>` | `panic`
+fn real_find(case: &Case) -> (String, Option<PathBuf>) {
+    let result = std::panic::catch_unwind(|| {
+        let resources = Resources::from_memory();
+        for f in &case.files {
+            resources.write(f, &format!("return {:?}", f)).unwrap();
+        }
+        match &case.mode {
+            Mode::Path { folder, sources } => vh::path_locator_find(
+                &build_path_mode(folder, sources),
+                Path::new(&case.proj),
+                &resources,
+                Path::new(&case.req),
+                Path::new(&case.source),
+            ),
+            Mode::Luau { aliases } => vh::luau_path_locator_find(
+                &build_luau_mode(aliases),
+                Path::new(&case.proj),
+                &resources,
+                Path::new(&case.req),
+                Path::new(&case.source),
+            ),
+        }
+    });
+    match result {
+        Err(_) => ("panic".to_owned(), None),
+        Ok(Ok(p)) => (format!("ok {}", wire(&p)), Some(p)),
+        Ok(Err(msg)) => {
+            if let Some(rest) = msg.strip_prefix("unable to find `") {
+                let end = rest.find("` (tried").or_else(|| rest.find('`')).unwrap_or(rest.len());
+                (format!("err notfound {}", wire(Path::new(&rest[..end]))), None)
+            } else if msg.contains("path is empty") {
+                ("err empty".to_owned(), None)
+            } else if let Some(i) = msg.find("unknown source name `") {
+                let rest = &msg[i + "unknown source name `".len()..];
+                let end = rest.rfind('`').unwrap_or(rest.len());
+                (format!("err unknown {}", hx(&rest[..end])), None)
+            } else {
+                (format!("err other {}", msg), None)
+            }
+        }
+    }
+}
+
+/// Judge one labelled case against the documentation. `Some(description)` = the real code
+/// breaks the property on this input.
+fn oracle_find(case: &Case, real: &str, real_path: &Option<PathBuf>) -> Option<String> {
+    let expect = case.expect.as_ref()?;
+    match expect {
+        Expect::File(loc) => match real_path {
+            Some(p) => {
+                let got = walk(&cwd(), p.to_str().unwrap_or(""));
+                if &got == loc {
+                    None
+                } else {
+                    Some(format!(
+                        "resolved to `{}` (location /{}) but the first existing documented candidate is /{}",
+                        p.display(),
+                        got.join("/"),
+                        loc.join("/")
+                    ))
+                }
+            }
+            None => Some(format!("`{}` but the documented candidate /{} exists", real, loc.join("/"))),
+        },
+        Expect::NotFound => {
+            if real.starts_with("err notfound") {
+                None
+            } else {
+                Some(format!("`{}` but none of the documented candidates exists", real))
+            }
+        }
+        Expect::UnknownSource => {
+            if real.starts_with("err unknown") {
+                None
+            } else {
+                Some(format!("`{}` but the source name is not configured", real))
+            }
+        }
+    }
+}
+
+/// the documented candidate order, as a literal list, for a target given by location
+fn documented_candidates(target: &Loc, ext: &str, folder: &str) -> Vec<Loc> {
+    // target = location of "the given path" *without* `ext`
+    let mut given = target.clone();
+    let last = given.pop().unwrap_or_default();
+    let with = |suffix: &str| {
+        let mut l = given.clone();
+        l.push(format!("{}{}{}", last, ext, suffix));
+        l
+    };
+    if ext == ".lua" || ext == ".luau" {
+        // special case: a path that already has a Lua extension is looked up as it is
+        return vec![with("")];
+    }
+    let mut out = vec![with(""), with(".luau"), with(".lua")];
+    let base = with("");
+    let sub = |name: String| {
+        let mut l = base.clone();
+        l.push(name);
+        l
+    };
+    out.push(sub(folder.to_owned()));
+    let folder_has_extension = folder[1..].contains('.');
+    if !folder_has_extension {
+        out.push(sub(format!("{}.luau", folder)));
+        out.push(sub(format!("{}.lua", folder)));
+    }
+    out
+}
+
+/// the six files around a target whose presence is enumerated (files vs directories of the
+/// same stem): `t`, `t.luau`, `t.lua`, `t/<stem>`, `t/<stem>.luau`, `t/<stem>.lua`
+fn universe(target: &Loc, ext: &str, folder: &str) -> Vec<Loc> {
+    let stem = match folder.find('.') {
+        Some(i) if i > 0 => &folder[..i],
+        _ => folder,
+    };
+    documented_candidates(target, if ext == ".d" { ".d" } else { "" }, stem)
+}
+
+const DECOY_DIRS: &[&str] = &[".", "src", "src/sub", "lib", "..", "/abs", "/abs/src", "/abs/lib", "../out", "cfg", "cfg/lib", "src/lib", "../lib", "/abs/sub"];
+
+fn decoys(stem: &str, avoid: &BTreeSet<Loc>) -> Vec<String> {
+    let mut out = Vec::new();
+    for d in DECOY_DIRS {
+        for suffix in ["", ".lua", ".luau"] {
+            let mut loc = walk(&cwd(), d);
+            loc.push(format!("{}{}", stem, suffix));
+            if !avoid.contains(&loc) {
+                out.push(loc_string(&loc));
+            }
+        }
+    }
+    out
+}
+
+/// spell a require: `first` is `.`-relative head handling, `tail` the remaining segments
+fn spell(head: &str, tail: &[&str], ext: &str, deco: usize) -> Option<String> {
+    // head: "" for relative requires (a `./` is added unless the tail starts with `..`), else the alias
+    let mut segs: Vec<String> = Vec::new();
+    if head.is_empty() {
+        if tail.first() != Some(&"..") {
+            segs.push(".".to_owned());
+        }
+    } else {
+        segs.push(head.to_owned());
+    }
+    for t in tail {
+        segs.push((*t).to_owned());
+    }
+    if tail.is_empty() && !ext.is_empty() {
+        return None;
+    }
+    if let Some(last) = segs.last_mut() {
+        if !tail.is_empty() {
+            last.push_str(ext);
+        }
+    }
+    let n = segs.len();
+    match deco {
+        0 => Some(segs.join("/")),
+        1 => {
+            // redundant `.` after the first component
+            let mut s = segs.clone();
+            s.insert(1, ".".to_owned());
+            Some(s.join("/"))
+        }
+        2 => {
+            // detour through a directory and back, before the last component
+            if n < 2 {
+                return None;
+            }
+            let mut s = segs.clone();
+            s.insert(n - 1, "..".to_owned());
+            s.insert(n - 1, "zz".to_owned());
+            Some(s.join("/"))
+        }
+        3 => {
+            if n < 2 {
+                return None;
+            }
+            let mut s = segs.clone();
+            s.insert(n - 1, String::new());
+            Some(s.join("/"))
+        }
+        4 => Some(format!("{}/", segs.join("/"))),
+        5 => {
+            // `./..` : current directory, then parent
+            if head.is_empty() && tail.first() == Some(&"..") {
+                Some(format!("./{}", segs.join("/")))
+            } else {
+                None
+            }
+        }
+        _ => None,
+    }
+}
+
+#[derive(Clone)]
+struct Universe {
+    masks: Vec<u32>,
+    decos: Vec<usize>,
+    region: &'static str,
+}
+
+fn push_cases(
+    out: &mut Vec<Case>,
+    u: &Universe,
+    kind: &'static str,
+    mode: &Mode,
+    proj: &str,
+    source: &str,
+    base: &Loc,
+    head: &str,
+    tail: &[&str],
+    folder: &str,
+) {
+    for stem_ext in ["", ".d"] {
+        // stem_ext ".d": the last name carries a non-Lua extension (`m.d`)
+        if tail.is_empty() && !stem_ext.is_empty() {
+            continue;
+        }
+        for ext in ["", ".lua", ".luau"] {
+            let full_ext = format!("{}{}", stem_ext, ext);
+            // location of the given path without any extension suffix
+            let mut target = base.clone();
+            let mut above_root = false;
+            for t in tail {
+                if *t == ".." {
+                    // `..` at the root: POSIX stays at the root, darklua's normalize pops it (F16)
+                    above_root |= target.is_empty();
+                    target.pop();
+                } else {
+                    target.push((*t).to_owned());
+                }
+            }
+            if target.is_empty() {
+                continue;
+            }
+            let uni = universe(&target, stem_ext, folder);
+            let documented = documented_candidates(&{
+                let mut t = target.clone();
+                if !stem_ext.is_empty() {
+                    let l = t.pop().unwrap();
+                    t.push(format!("{}{}", l, stem_ext));
+                }
+                t
+            }, ext, folder);
+            let avoid: BTreeSet<Loc> = uni.iter().chain(documented.iter()).cloned().collect();
+            let stem_name = format!("{}{}", target.last().unwrap(), stem_ext);
+            let decoy_files = decoys(&stem_name, &avoid);
+            for &deco in &u.decos {
+                let req = match spell(head, tail, &full_ext, deco) {
+                    Some(r) => r,
+                    None => continue,
+                };
+                for &mask in &u.masks {
+                    let present: BTreeSet<Loc> =
+                        uni.iter().enumerate().filter(|(i, _)| mask & (1 << i) != 0).map(|(_, l)| l.clone()).collect();
+                    let mut files: Vec<String> = present.iter().map(|l| loc_string(l)).collect();
+                    files.extend(decoy_files.iter().cloned());
+                    let expect = match documented.iter().find(|c| present.contains(*c)) {
+                        Some(loc) => Expect::File(loc.clone()),
+                        None => Expect::NotFound,
+                    };
+                    out.push(Case {
+                        mode: mode.clone(),
+                        proj: proj.to_owned(),
+                        files,
+                        source: source.to_owned(),
+                        req: req.clone(),
+                        expect: Some(expect),
+                        present: present.len(),
+                        kind,
+                        ext,
+                        deco,
+                        mask,
+                        region: if above_root { "F16" } else { u.region },
+                    });
+                }
+            }
+        }
+    }
+}
+
+fn s(x: &str) -> String {
+    x.to_owned()
+}
+
+fn labelled_cases(thorough: bool, rng: &mut Rng) -> Vec<Case> {
+    let all_masks: Vec<u32> = (0..64).collect();
+    // quick tier: every layout for the plain spelling, a seeded third of the layouts for the
+    // decorated spellings
+    let mut some_masks: Vec<u32> = all_masks.clone();
+    if !thorough {
+        rng.shuffle(&mut some_masks);
+        some_masks.truncate(20);
+        for m in [0u32, 63, 1, 2, 4, 8, 16, 32] {
+            if !some_masks.contains(&m) {
+                some_masks.push(m);
+            }
+        }
+    }
+    let plain = Universe { masks: all_masks.clone(), decos: vec![0], region: "" };
+    let decorated = Universe { masks: some_masks, decos: vec![1, 2, 3, 4, 5], region: "" };
+    let mut out = Vec::new();
+    let tails: [&[&str]; 5] = [&["m"], &["sub", "m"], &["..", "m"], &["..", "lib", "m"], &["..", "..", "lib", "m"]];
+
+    // ---- path mode, relative requires
+    for folder in ["init", "init.luau", "index"] {
+        let stem = folder.split('.').next().unwrap();
+        let mode = Mode::Path { folder: s(folder), sources: vec![] };
+        let sources = [
+            s("src/main.lua"),
+            s("main.lua"),
+            s("./src/main.lua"),
+            format!("src/sub/{}.lua", stem),
+            s("/abs/src/main.lua"),
+            s("../out/main.lua"),
+        ];
+        for source in &sources {
+            let mut base = walk(&cwd(), source);
+            base.pop();
+            for tail in tails {
+                for u in [&plain, &decorated] {
+                    push_cases(&mut out, u, "path-relative", &mode, ".", source, &base, "", tail, folder);
+                }
+            }
+        }
+        // ---- path mode, source-prefixed requires
+        let configs: [(&str, Vec<(String, String)>, &str, &str); 5] = [
+            (".", vec![(s("pkg"), s("./lib"))], "pkg", "./lib"),
+            ("/abs", vec![(s("pkg"), s("lib")), (s("@other"), s("src/sub"))], "@other", "src/sub"),
+            ("cfg", vec![(s("pkg"), s("/abs/lib"))], "pkg", "/abs/lib"),
+            ("cfg/deep", vec![(s("pkg"), s("../lib")), (s("img"), s("./assets/data.json"))], "pkg", "../lib"),
+            (".", vec![(s("img"), s("./assets/data.json"))], "img", "./assets/data.json"),
+        ];
+        let alias_tails: [&[&str]; 4] = [&["m"], &["sub", "m"], &["..", "m"], &[]];
+        for (proj, sources_map, name, location) in &configs {
+            let mode = Mode::Path { folder: s(folder), sources: sources_map.clone() };
+            let base = walk(&walk(&cwd(), proj), location);
+            for source in ["src/main.lua", "/abs/src/main.lua"] {
+                for tail in alias_tails {
+                    if *name == "img" && !tail.is_empty() {
+                        continue;
+                    }
+                    for u in [&plain, &decorated] {
+                        push_cases(&mut out, u, "path-source", &mode, proj, source, &base, name, tail, folder);
+                    }
+                }
+            }
+            // an unconfigured source name
+            out.push(Case {
+                mode: mode.clone(),
+                proj: s(proj),
+                files: vec![s("nope/m.lua"), s("m.lua")],
+                source: s("src/main.lua"),
+                req: s("nope/m"),
+                expect: Some(Expect::UnknownSource),
+                present: 0,
+                kind: "path-unknown-source",
+                ext: "",
+                deco: 0,
+                mask: 0,
+                region: "",
+            });
+        }
+        // ---- absolute requires
+        let base = walk(&cwd(), "/abs/lib");
+        for u in [&plain, &decorated] {
+            // head "/abs/lib": spelled as an absolute path
+            push_cases(&mut out, u, "path-absolute", &mode, ".", "src/main.lua", &base, "/abs/lib", &["m"], folder);
+        }
+    }
+
+    // ---- luau mode (module folder name is always `init`)
+    let luau = Mode::Luau { aliases: vec![] };
+    // (source, is a module-folder file)
+    let luau_sources = [
+        ("src/main.luau", false),
+        ("main.luau", false),
+        ("src/init.luau", true),
+        ("src/sub/init.lua", true),
+        ("src/sub/init", true),
+        ("/abs/src/init.luau", true),
+        ("/abs/src/main.luau", false),
+        ("src/init.server.luau", false),
+    ];
+    for (source, is_module) in luau_sources {
+        let mut dir = walk(&cwd(), source);
+        dir.pop();
+        let mut base = dir.clone();
+        if is_module {
+            // documented: relative to the parent when the requiring file is a module-folder file
+            base.pop();
+        }
+        for tail in tails {
+            for u in [&plain, &decorated] {
+                push_cases(&mut out, u, if is_module { "luau-relative-module" } else { "luau-relative" }, &luau, ".", source, &base, "", tail, "init");
+                // `@self` always starts at the requiring file's own directory
+            }
+        }
+        let self_tails: [&[&str]; 2] = [&["m"], &["sub", "m"]];
+        for tail in self_tails {
+            for u in [&plain, &decorated] {
+                push_cases(&mut out, u, "luau-self", &luau, ".", source, &dir, "@self", tail, "init");
+            }
+        }
+    }
+    let luau_configs: [(&str, Vec<(String, String)>, &str, &str); 3] = [
+        (".", vec![(s("@pkg"), s("./lib"))], "@pkg", "./lib"),
+        ("/abs", vec![(s("@pkg"), s("lib")), (s("@other"), s("src/sub"))], "@other", "src/sub"),
+        ("cfg/deep", vec![(s("@pkg"), s("../lib"))], "@pkg", "../lib"),
+    ];
+    let alias_tails: [&[&str]; 4] = [&["m"], &["sub", "m"], &["..", "m"], &[]];
+    for (proj, aliases, name, location) in &luau_configs {
+        let mode = Mode::Luau { aliases: aliases.clone() };
+        let base = walk(&walk(&cwd(), proj), location);
+        for source in ["src/main.luau", "src/init.luau"] {
+            for tail in alias_tails {
+                for u in [&plain, &decorated] {
+                    push_cases(&mut out, u, "luau-alias", &mode, proj, source, &base, name, tail, "init");
+                }
+            }
+        }
+        out.push(Case {
+            mode: mode.clone(),
+            proj: s(proj),
+            files: vec![s("@nope/m.luau"), s("m.luau")],
+            source: s("src/main.luau"),
+            req: s("@nope/m"),
+            expect: Some(Expect::UnknownSource),
+            present: 0,
+            kind: "luau-unknown-alias",
+            ext: "",
+            deco: 0,
+            mask: 0,
+            region: "",
+        });
+    }
+    // ---- regions of listed findings (judged like the others; failures there are expected)
+    // F25: a module-folder file whose directory has no name to strip (`init.luau`, `../init.luau`, `/init.luau`)
+    let f25 = Universe { region: "F25", ..plain.clone() };
+    for source in ["init.luau", "./init.luau", "../init.luau", "/init.luau"] {
+        let mut base = walk(&cwd(), source);
+        base.pop();
+        base.pop();
+        for tail in [&["m"][..], &["sub", "m"][..]] {
+            push_cases(&mut out, &f25, "luau-relative-module-toplevel", &luau, ".", source, &base, "", tail, "init");
+        }
+    }
+    // F26: the documentation allows luau aliases without `@`
+    let f26 = Universe { region: "F26", ..plain.clone() };
+    let mode = Mode::Luau { aliases: vec![(s("pkg"), s("./lib")), (s("images"), s("./assets/data.json"))] };
+    let base = walk(&cwd(), "lib");
+    for tail in [&["m"][..], &["sub", "m"][..]] {
+        push_cases(&mut out, &f26, "luau-alias-without-at", &mode, ".", "src/main.luau", &base, "pkg", tail, "init");
+    }
+    out
+}
+
+/// unlabelled cases: odd spellings, odd requiring files, random layouts (correspondence only)
+fn random_cases(n: usize, rng: &mut Rng) -> Vec<Case> {
+    let segs = ["", ".", "..", "m", "m.lua", "m.luau", "sub", "init", "init.luau", "pkg", "@pkg", "@self", "x.d", ".h", "a."];
+    let sources = ["src/main.lua", "main.lua", "", ".", "..", "/", "init.luau", "./init.luau", "../init.luau", "/init.luau", "src/init.lua", "src/..", "src/init", "a/b/c.lua", "/abs/x/init.luau", "src/sub/index.lua"];
+    let file_pool = ["m", "m.lua", "m.luau", "m/init.lua", "m/init.luau", "m/init", "src/m.lua", "src/m/init.luau", "lib/m.lua", "lib/m.luau", "lib.lua", "lib/init.lua", "../m.lua", "/abs/m.lua", "/m.lua", "sub/m.lua", "src/sub/m.luau", "m.lua.luau", "init.lua", "init.luau", "src/init.lua", "m/index.lua", "src.lua", "x.d", "x.d.lua", ".h.luau", "a..lua", "../init.lua", "/init.lua"];
+    let folders = ["init", "init.luau", "index", "", "x/y", ".", "..", "i.d", "/abs"];
+    let maps: [Vec<(String, String)>; 4] = [
+        vec![],
+        vec![(s("pkg"), s("./lib")), (s("@pkg"), s("lib"))],
+        vec![(s("pkg"), s("/abs")), (s("@pkg"), s("../lib")), (s("m"), s("src"))],
+        vec![(s("@pkg"), s("")), (s("pkg"), s("."))],
+    ];
+    let projs = [".", "", "/abs", "cfg", ".."];
+    let mut out = Vec::with_capacity(n);
+    for _ in 0..n {
+        let k = 1 + rng.below(4);
+        let mut req: Vec<&str> = (0..k).map(|_| *rng.pick(&segs)).collect();
+        if rng.chance(1, 2) {
+            req.insert(0, if rng.chance(1, 2) { "." } else { ".." });
+        }
+        let mut req = req.join("/");
+        if rng.chance(1, 12) {
+            req = format!("/{}", req);
+        }
+        let nfiles = rng.below(6);
+        let files: Vec<String> = (0..nfiles).map(|_| s(*rng.pick(&file_pool))).collect();
+        let map = rng.pick(&maps).clone();
+        let mode = if rng.chance(1, 2) {
+            Mode::Path { folder: s(*rng.pick(&folders)), sources: map }
+        } else {
+            Mode::Luau { aliases: map }
+        };
+        out.push(Case {
+            mode,
+            proj: s(*rng.pick(&projs)),
+            files,
+            source: s(*rng.pick(&sources)),
+            req,
+            expect: None,
+            present: nfiles,
+            kind: "random",
+            ext: "",
+            deco: 0,
+            mask: 0,
+            region: "",
+        });
+    }
+    out
+}
+
+struct FindOutcome {
+    idx: usize,
+    real: String,
+    model: String,
+    oracle: Option<String>,
+}
+
+fn run_find_cases(cases: &[Case], threads: usize) -> Vec<FindOutcome> {
+    let chunk = (cases.len() + threads - 1) / threads.max(1);
+    let mut outcomes: Vec<FindOutcome> = Vec::with_capacity(cases.len());
+    std::thread::scope(|scope| {
+        let mut handles = Vec::new();
+        for (t, part) in cases.chunks(chunk.max(1)).enumerate() {
+            handles.push(scope.spawn(move || {
+                let mut model = spawn_model();
+                let mut local = Vec::with_capacity(part.len());
+                for (b, batch) in part.chunks(4000).enumerate() {
+                    let requests: Vec<String> = batch.iter().map(|c| c.model_request()).collect();
+                    let answers = model.ask_batch(&requests);
+                    for (i, (case, answer)) in batch.iter().zip(answers).enumerate() {
+                        let (real, real_path) = real_find(case);
+                        let oracle = oracle_find(case, &real, &real_path);
+                        local.push(FindOutcome { idx: t * chunk.max(1) + b * 4000 + i, real, model: answer, oracle });
+                    }
+                }
+                local
+            }));
+        }
+        for h in handles {
+            outcomes.extend(h.join().expect("worker thread"));
+        }
+    });
+    outcomes
+}
+
+// ------------------------------------------------------------------------------------------
+// convert_require
+
+fn mode_json5(mode: &Mode) -> String {
+    match mode {
+        Mode::Path { folder, sources } => format!(
+            "{{ name: 'path', module_folder_name: {:?}, sources: {{ {} }}, use_luau_configuration: false }}",
+            folder,
+            json5_map(sources)
+        ),
+        Mode::Luau { aliases } => format!("{{ name: 'luau', aliases: {{ {} }}, use_luau_configuration: false }}", json5_map(aliases)),
+    }
+}
+
+fn mode_to_json(mode: &Mode) -> Value {
+    let (name, folder, map) = match mode {
+        Mode::Path { folder, sources } => ("path", folder.clone(), sources.clone()),
+        Mode::Luau { aliases } => ("luau", "init".to_owned(), aliases.clone()),
+    };
+    json!({"mode": name, "folder": folder, "map": map.iter().map(|(k, v)| json!([k, v])).collect::<Vec<_>>()})
+}
+
+fn mode_from_json(v: &Value) -> Option<Mode> {
+    let map: Vec<(String, String)> = v["map"]
+        .as_array()?
+        .iter()
+        .filter_map(|e| Some((e[0].as_str()?.to_owned(), e[1].as_str()?.to_owned())))
+        .collect();
+    match v["mode"].as_str()? {
+        "path" => Some(Mode::Path { folder: v["folder"].as_str()?.to_owned(), sources: map }),
+        "luau" => Some(Mode::Luau { aliases: map }),
+        _ => None,
+    }
+}
+
+fn mode_wire(mode: &Mode) -> String {
+    match mode {
+        Mode::Path { folder, sources } => format!("path {} {}", hx(folder), map_wire(sources)),
+        Mode::Luau { aliases } => format!("luau {} {}", hx("init"), map_wire(aliases)),
+    }
+}
+
+/// the real rule (`ConvertRequire::process`) on `return require("<req>")`: the argument afterwards
+fn real_convert(case: &Case, target: &Mode) -> Result<String, String> {
+    use darklua_core::nodes::{Arguments, Expression, LastStatement};
+    use darklua_core::rules::{ContextBuilder, Rule};
+    let case = case.clone();
+    let target = target.clone();
+    std::panic::catch_unwind(move || {
+        let resources = Resources::from_memory();
+        for f in &case.files {
+            resources.write(f, &format!("return {:?}", f)).unwrap();
+        }
+        let code = format!("return require({:?})", case.req);
+        let rule: Box<dyn Rule> = json5::from_str(&format!(
+            "{{ rule: 'convert_require', current: {}, target: {} }}",
+            mode_json5(&case.mode),
+            mode_json5(&target)
+        ))
+        .map_err(|e| format!("configuration: {}", e))?;
+        let mut block = darklua_core::Parser::default().parse(&code).map_err(|e| format!("parse: {}", e))?;
+        let context = ContextBuilder::new(&case.source, &resources, &code).with_project_location(&case.proj).build();
+        rule.process(&mut block, &context).map_err(|e| format!("rule: {}", e))?;
+        let last = block.get_last_statement().ok_or("no return")?;
+        if let LastStatement::Return(ret) = last {
+            for e in ret.iter_expressions() {
+                if let Expression::Call(call) = e {
+                    match call.get_arguments() {
+                        Arguments::Tuple(t) => {
+                            for v in t.iter_values() {
+                                if let Expression::String(st) = v {
+                                    return Ok(String::from_utf8_lossy(st.get_value()).into_owned());
+                                }
+                            }
+                        }
+                        Arguments::String(st) => return Ok(String::from_utf8_lossy(st.get_value()).into_owned()),
+                        _ => {}
+                    }
+                }
+            }
+        }
+        Err("no require call left".to_owned())
+    })
+    .unwrap_or_else(|_| Err("panic".to_owned()))
+}
+
+struct ConvCase {
+    case: Case,
+    target: Mode,
+}
+
+fn rename_aliases(map: &[(String, String)], at: bool) -> Vec<(String, String)> {
+    map.iter()
+        .map(|(k, v)| {
+            let bare = k.trim_start_matches('@');
+            (if at { format!("@{}", bare) } else { bare.to_owned() }, v.clone())
+        })
+        .collect()
+}
+
+fn convert_cases(labelled: &[Case], thorough: bool) -> Vec<ConvCase> {
+    let masks: &[u32] = if thorough { &[1, 2, 4, 8, 16, 32, 3, 6, 12, 24, 48, 5, 36, 63, 62, 60] } else { &[1, 2, 4, 8, 16, 32, 6, 36, 63] };
+    let mut out = Vec::new();
+    for c in labelled {
+        if !masks.contains(&c.mask) || !(c.deco == 0 || (thorough && c.deco == 2)) || !c.region.is_empty() {
+            continue;
+        }
+        let targets: Vec<Mode> = match &c.mode {
+            Mode::Path { sources, .. } => {
+                let mut t = vec![Mode::Luau { aliases: vec![] }];
+                if !sources.is_empty() {
+                    t.push(Mode::Luau { aliases: rename_aliases(sources, true) });
+                }
+                t
+            }
+            Mode::Luau { aliases } => {
+                let mut t = vec![Mode::Path { folder: s("init"), sources: vec![] }, Mode::Path { folder: s("index"), sources: vec![] }];
+                if !aliases.is_empty() {
+                    t.push(Mode::Path { folder: s("init"), sources: rename_aliases(aliases, false) });
+                }
+                t
+            }
+        };
+        for target in targets {
+            out.push(ConvCase { case: c.clone(), target });
+        }
+    }
+    out
+}
+
+/// what a call `require("<literal>")` resolves to: the literal is normalised first
+/// (match_require.rs), reproduced here with the real normaliser
+fn real_find_call(case: &Case) -> (String, Option<PathBuf>) {
+    let mut c = case.clone();
+    c.req = vh::normalize_path_with_current_dir(Path::new(&case.req)).to_str().unwrap_or("").to_owned();
+    real_find(&c)
+}
+
+/// the property's demand on a conversion: resolve before, convert, resolve the new argument
+/// under the target mode, same location. Returns (file found before, failure).
+/// the location a require argument would be written for: module-folder file name or Lua extension dropped
+fn stripped(loc: &Loc) -> Loc {
+    let mut l = loc.clone();
+    if let Some(last) = l.pop() {
+        let stem = last.split('.').next().unwrap_or("");
+        if stem == "init" || stem == "index" {
+            return l;
+        }
+        let name = last.strip_suffix(".luau").or_else(|| last.strip_suffix(".lua")).unwrap_or(&last);
+        l.push(name.to_owned());
+    }
+    l
+}
+
+fn convert_oracle(case: &Case, target: &Mode, real_arg: &Result<String, String>) -> (Option<PathBuf>, Option<String>) {
+    let (_, before) = real_find_call(case);
+    let mut oracle = None;
+    if let Some(before_path) = &before {
+        match real_arg {
+            Ok(arg) => {
+                let mut again = case.clone();
+                again.mode = target.clone();
+                again.req = arg.clone();
+                let (after_text, after) = real_find_call(&again);
+                let want = walk(&cwd(), before_path.to_str().unwrap_or(""));
+                match after {
+                    Some(p) if walk(&cwd(), p.to_str().unwrap_or("")) == want => {}
+                    Some(p) => {
+                        // F29's region: another candidate of the same stripped path shadows the file
+                        let shadow = stripped(&walk(&cwd(), p.to_str().unwrap_or(""))) == stripped(&want);
+                        oracle = Some(format!("{}`{}` resolved to `{}`; converted to `{}` it resolves to `{}`", if shadow { "[shadowed] " } else { "" }, case.req, before_path.display(), arg, p.display()))
+                    }
+                    None => oracle = Some(format!("`{}` resolved to `{}`; converted to `{}` it gives `{}`", case.req, before_path.display(), arg, after_text)),
+                }
+            }
+            Err(e) => oracle = Some(format!("the rule failed: {}", e)),
+        }
+    }
+    (before, oracle)
+}
+
+struct ConvOutcome {
+    idx: usize,
+    real_arg: Result<String, String>,
+    model: String,
+    /// (original location, location after conversion or error text)
+    oracle: Option<String>,
+    found_ok: bool,
+}
+
+fn run_convert_cases(cases: &[ConvCase], threads: usize) -> Vec<ConvOutcome> {
+    let chunk = ((cases.len() + threads - 1) / threads.max(1)).max(1);
+    let mut outcomes = Vec::with_capacity(cases.len());
+    std::thread::scope(|scope| {
+        let mut handles = Vec::new();
+        for (t, part) in cases.chunks(chunk).enumerate() {
+            handles.push(scope.spawn(move || {
+                let mut model = spawn_model();
+                let mut local = Vec::with_capacity(part.len());
+                for (b, batch) in part.chunks(2000).enumerate() {
+                    let requests: Vec<String> = batch
+                        .iter()
+                        .map(|c| {
+                            format!(
+                                "c15.conv {} {} {} {} {} {}",
+                                mode_wire(&c.case.mode),
+                                mode_wire(&c.target),
+                                hx(&c.case.proj),
+                                list_wire(&c.case.files),
+                                hx(&c.case.source),
+                                hx(&c.case.req)
+                            )
+                        })
+                        .collect();
+                    let answers = model.ask_batch(&requests);
+                    for (i, (cc, answer)) in batch.iter().zip(answers).enumerate() {
+                        let real_arg = real_convert(&cc.case, &cc.target);
+                        // oracle: resolve before, convert, resolve the new argument under the target mode
+                        let (before, oracle) = convert_oracle(&cc.case, &cc.target, &real_arg);
+                        let before_ok = before.is_some();
+                        local.push(ConvOutcome { idx: t * chunk + b * 2000 + i, real_arg, model: answer, oracle, found_ok: before_ok });
+                    }
+                }
+                local
+            }));
+        }
+        for h in handles {
+            outcomes.extend(h.join().expect("worker thread"));
+        }
+    });
+    outcomes
+}
+
+// ------------------------------------------------------------------------------------------
+// end to end: bundle with the real `darklua_core::process` and see which file was inlined
+
+/// `marker <file>` (the one candidate/decoy whose text ended up in the bundle) | `markers <n>` |
+/// `error` | `panic`
+fn real_bundle(case: &Case) -> String {
+    let case = case.clone();
+    std::panic::catch_unwind(move || {
+        let resources = Resources::from_memory();
+        for f in &case.files {
+            resources.write(f, &format!("return {:?}", f)).unwrap();
+        }
+        resources.write(&case.source, &format!("return require({:?})", case.req)).unwrap();
+        let text = format!("{{ rules: [], generator: 'dense', bundle: {{ require_mode: {} }} }}", mode_json5(&case.mode));
+        let config: darklua_core::Configuration = match json5::from_str(&text) {
+            Ok(c) => c,
+            Err(e) => return format!("configuration {}", e),
+        };
+        let config = config.with_location(&case.proj);
+        let out = "bundle-output/out.lua";
+        let options = darklua_core::Options::new(&case.source).with_output(out).with_configuration(config);
+        let ok = match darklua_core::process(&resources, options) {
+            Ok(tree) => tree.result().is_ok(),
+            Err(_) => false,
+        };
+        if !ok {
+            return "error".to_owned();
+        }
+        let code = match resources.get(out) {
+            Ok(c) => c,
+            Err(_) => return "error".to_owned(),
+        };
+        let hits: Vec<&String> = case.files.iter().filter(|f| code.contains(&format!("'{}'", f)) || code.contains(&format!("\"{}\"", f))).collect();
+        if hits.len() == 1 {
+            format!("marker {}", hits[0])
+        } else {
+            format!("markers {}", hits.len())
+        }
+    })
+    .unwrap_or_else(|_| "panic".to_owned())
+}
+
+/// `alias/..`: match_path_require_call normalises the literal, which swallows the alias (F30)
+fn alias_then_parent(req: &str) -> bool {
+    let mut segs = req.split('/').filter(|x| !x.is_empty() && *x != ".");
+    match (segs.next(), segs.next()) {
+        (Some(first), Some("..")) => first != ".." && !req.starts_with('/') && !req.starts_with('.'),
+        _ => false,
+    }
+}
+
+fn run_bundle_cases(cases: &[&Case], threads: usize) -> Vec<String> {
+    let chunk = ((cases.len() + threads - 1) / threads.max(1)).max(1);
+    let mut out: Vec<String> = Vec::with_capacity(cases.len());
+    std::thread::scope(|scope| {
+        let handles: Vec<_> = cases.chunks(chunk).map(|part| scope.spawn(move || part.iter().map(|c| real_bundle(c)).collect::<Vec<_>>())).collect();
+        for h in handles {
+            out.extend(h.join().expect("worker thread"));
+        }
+    });
+    out
+}
+
+// ------------------------------------------------------------------------------------------
+// normalize
+
+fn path_strings(max_len: usize) -> Vec<String> {
+    let segs = ["", ".", "..", "a", "b.lua", ".x"];
+    let mut out = vec![String::new(), "/".to_owned()];
+    let mut frontier: Vec<Vec<&str>> = vec![vec![]];
+    for _ in 0..max_len {
+        let mut next = Vec::new();
+        for f in &frontier {
+            for sg in segs {
+                let mut g = f.clone();
+                g.push(sg);
+                next.push(g);
+            }
+        }
+        for g in &next {
+            let joined = g.join("/");
+            out.push(joined.clone());
+            out.push(format!("/{}", joined));
+        }
+        frontier = next;
+    }
+    out.sort();
+    out.dedup();
+    out
+}
+
+fn real_norm(keep: bool, p: &str) -> PathBuf {
+    if keep {
+        vh::normalize_path_with_current_dir(Path::new(p))
+    } else {
+        vh::normalize_path(Path::new(p))
+    }
+}
+
+/// the property's demands on `normalize`, judged on the real function with the string walk.
+/// Returns (failure, is_root_loss).
+fn oracle_norm(keep: bool, p: &str) -> Option<String> {
+    let out = real_norm(keep, p);
+    let out_s = out.to_str().unwrap_or("").to_owned();
+    let again = real_norm(keep, &out_s);
+    if again != out || again.to_str() != out.to_str() {
+        return Some(format!("not idempotent: `{}` -> `{}` -> `{}`", p, out_s, again.display()));
+    }
+    if p.starts_with('/') && !out_s.starts_with('/') {
+        return Some(format!("absolute `{}` normalises to relative `{}`", p, out_s));
+    }
+    for start in [cwd(), vec![s("r")], vec![]] {
+        if walk(&start, p) != walk(&start, &out_s) {
+            return Some(format!(
+                "`{}` leads to /{} but its normal form `{}` leads to /{} (from /{})",
+                p,
+                walk(&start, p).join("/"),
+                out_s,
+                walk(&start, &out_s).join("/"),
+                start.join("/")
+            ));
+        }
+    }
+    None
+}
+
+fn mutate_path_string(p: &str, rng: &mut Rng) -> String {
+    let segs = ["", ".", "..", "a", "b.lua", ".x"];
+    let mut parts: Vec<String> = p.split('/').map(str::to_owned).collect();
+    match rng.below(3) {
+        0 if parts.len() > 1 => {
+            let i = rng.below(parts.len());
+            parts.remove(i);
+        }
+        1 => {
+            let i = rng.below(parts.len() + 1);
+            parts.insert(i, s(*rng.pick(&segs)));
+        }
+        _ => {
+            let i = rng.below(parts.len());
+            parts[i] = s(*rng.pick(&segs));
+        }
+    }
+    parts.join("/")
+}
+
+// ------------------------------------------------------------------------------------------
+// candidates (iterator)
+
+/// (path string, folder) pairs for which the documentation fixes the list literally
+fn documented_cands_literal(p: &str, folder: &str, folder_has_ext: bool) -> Vec<String> {
+    if p.ends_with(".lua") || p.ends_with(".luau") {
+        return vec![s(p)];
+    }
+    let no_name = p == "." || p == ".." || p == "/" || p.ends_with("/..");
+    let mut out = vec![s(p)];
+    if !no_name {
+        out.push(format!("{}.luau", p));
+        out.push(format!("{}.lua", p));
+    }
+    let joined = if p == "/" { format!("/{}", folder) } else { format!("{}/{}", p, folder) };
+    out.push(joined.clone());
+    if !folder_has_ext {
+        out.push(format!("{}.luau", joined));
+        out.push(format!("{}.lua", joined));
+    }
+    out
+}
+
+// ------------------------------------------------------------------------------------------
+
+fn known_entry<'a>(known: &'a [Value], id: &str) -> Option<&'a Value> {
+    known.iter().find(|e| e["id"] == id && e["status"] == "known")
+}
+
+pub fn run(report: &mut Report, replay: Option<&str>) {
+    let thorough = report.is_thorough();
+    let mut rng = Rng::new(report.seed);
+    let known = known_findings("C15");
+    let threads = std::thread::available_parallelism().map(|n| n.get()).unwrap_or(4).min(16);
+    report.rule = "normalize: every path string over the segments {'', '.', '..', 'a', 'b.lua', '.x'} up to a length bound, rooted or not, both keep flags, plus seeded longer ones; \
+candidates: path strings x module folder names; locators: every subset of the six files around the target x require spellings (plain, redundant '.', detour 'zz/..', '//', trailing '/', './..', with/without .lua/.luau, non-Lua extension) x requiring files (ordinary, module-folder, absolute, parent-relative) x module folder names (init, init.luau, index) x sources/aliases maps x project locations, plus seeded odd cases. \
+A locator case is non-trivial when at least one candidate file exists (the loop selects); a normalize case when the output differs from the input's own component list; keys are whole inputs."
+        .to_owned();
+
+    if let Some(file) = replay {
+        run_replay(report, file);
+        return;
+    }
+
+    let mut model = spawn_model();
+
+    // ---- corpus: stored inputs are re-run first (find cases and normalize inputs)
+    let corpus_dir = concat!(env!("CARGO_MANIFEST_DIR"), "/../corpus/C15");
+    if let Ok(entries) = std::fs::read_dir(corpus_dir) {
+        let mut files: Vec<_> = entries.filter_map(|e| e.ok()).map(|e| e.path()).collect();
+        files.sort();
+        for f in files {
+            if let Ok(text) = std::fs::read_to_string(&f) {
+                if let Ok(v) = serde_json::from_str::<Value>(&text) {
+                    report.count("corpus_entries", 1);
+                    check_corpus_entry(report, &mut model, &v, &known);
+                }
+            }
+        }
+    }
+
+    // ---- known findings: replay the listed witnesses
+    replay_known(report, &known);
+
+    // ---- A. normalize: correspondence + oracle
+    let mut strings = path_strings(if thorough { 6 } else { 5 });
+    for _ in 0..(if thorough { 60000 } else { 6000 }) {
+        let k = 5 + rng.below(6);
+        let segs = ["", ".", "..", "a", "b.lua", ".x", "init", "a.b.c"];
+        let body: Vec<&str> = (0..k).map(|_| *rng.pick(&segs)).collect();
+        let mut p = body.join("/");
+        if rng.chance(1, 3) {
+            p = format!("/{}", p);
+        }
+        strings.push(p);
+    }
+    report.exhaustive.insert(format!("normalize: all strings of <= {} segments over 6 segment kinds, rooted or not", if thorough { 6 } else { 5 }), true);
+    let f16_known = known_entry(&known, "F16").is_some();
+    for keep in [false, true] {
+        let k = if keep { "1" } else { "0" };
+        let requests: Vec<String> = strings.iter().flat_map(|p| [format!("c15.norm {} {}", k, hx(p)), format!("c15.H {} {}", k, hx(p))]).collect();
+        let answers = model.ask_batch(&requests);
+        for (i, p) in strings.iter().enumerate() {
+            let model_out = &answers[2 * i];
+            let in_h = match answers[2 * i + 1].as_str() {
+                "true" => true,
+                "false" => false,
+                other => {
+                    report.violation(Violation { kind: s("correspondence"), check: s("normalize-H"), what: format!("driver answered `{}`", other), input: json!({"op": "norm", "keep": keep, "path": p}), failing_input_found: false });
+                    continue;
+                }
+            };
+            let real = std::panic::catch_unwind(|| real_norm(keep, p));
+            let real_wire = match &real {
+                Ok(r) => wire(r),
+                Err(_) => s("panic"),
+            };
+            let changed = real_wire != wire(Path::new(p));
+            report.case(if changed { Some(("norm", keep, p.clone())) } else { None });
+            report.hist("normalize", if !in_h { "outside-H15 (pops root)" } else if changed { "changed" } else { "unchanged" });
+            let oracle = if real.is_ok() { oracle_norm(keep, p) } else { Some(s("panic")) };
+            if let Some(what) = &oracle {
+                if in_h || !f16_known {
+                    report.violation(Violation { kind: s("oracle"), check: s("normalize"), what: what.clone(), input: json!({"op": "norm", "keep": keep, "path": p}), failing_input_found: true });
+                } else {
+                    report.count("normalize_failures_in_F16_region", 1);
+                }
+            }
+            if &real_wire != model_out {
+                // look for a property failure on this input or near it before blaming the model
+                let mut found = oracle.clone().filter(|_| in_h || !f16_known).map(|w| (p.clone(), w));
+                let mut local = rng.fork();
+                for _ in 0..400 {
+                    if found.is_some() {
+                        break;
+                    }
+                    let q = mutate_path_string(p, &mut local);
+                    if model.ask(&format!("c15.H {} {}", k, hx(&q))) != "true" && f16_known {
+                        continue;
+                    }
+                    if let Some(w) = oracle_norm(keep, &q) {
+                        found = Some((q, w));
+                    }
+                }
+                match found {
+                    Some((q, w)) => report.violation(Violation { kind: s("oracle"), check: s("normalize"), what: w, input: json!({"op": "norm", "keep": keep, "path": q}), failing_input_found: true }),
+                    None => report.violation(Violation { kind: s("correspondence"), check: s("normalize"), what: format!("real `{}` model `{}`", real_wire, model_out), input: json!({"op": "norm", "keep": keep, "path": p}), failing_input_found: false }),
+                }
+            }
+        }
+    }
+    report.sample(json!({"op": "norm", "keep": true, "path": "a/.././b", "real": real_norm(true, "a/.././b")}));
+
+    // ---- B. candidates: correspondence + literal documented list
+    let folders: [(&str, Option<bool>); 12] = [
+        ("init", Some(false)), ("index", Some(false)), ("init.luau", Some(true)), ("index.lua", Some(true)), ("mod.x", Some(true)),
+        ("", None), ("x/y", None), ("./init", None), ("..", None), ("/abs", None), (".hid", Some(false)), ("init.", None),
+    ];
+    let cand_paths = path_strings(if thorough { 4 } else { 3 });
+    let literal_paths = ["a", "./a", "../a", "d/a", "/d/a", "a.txt", ".hid", "a.b.c", "a.lua", "./d/a.luau", ".", "..", "/", "../..", "a.", "./.luau", "x.lua.bak"];
+    let mut requests = Vec::new();
+    let mut keys = Vec::new();
+    for (folder, _) in &folders {
+        for p in cand_paths.iter().map(String::as_str).chain(literal_paths.iter().copied()) {
+            requests.push(format!("c15.cands {} {}", hx(p), hx(folder)));
+            keys.push((p.to_owned(), *folder));
+        }
+    }
+    let mut oracle_cands_failed = false;
+    for (folder, has_ext) in &folders {
+        let has_ext = match has_ext {
+            Some(b) => *b,
+            None => continue,
+        };
+        for p in literal_paths {
+            if p == "a." || p == "./.luau" {
+                continue; // `a.` has an empty extension, `.luau` is a hidden file without one: the documentation does not say
+            }
+            let expected: Vec<String> = documented_cands_literal(p, folder, has_ext).iter().map(|c| wire(Path::new(c))).collect();
+            let real: Vec<String> = vh::find_require_paths(Path::new(p), folder).iter().map(|c| wire(c)).collect();
+            report.case(Some(("cands-literal", p, *folder)));
+            if expected != real {
+                oracle_cands_failed = true;
+                report.violation(Violation { kind: s("oracle"), check: s("candidates-documented-order"), what: format!("documented `{}` real `{}`", expected.join(";"), real.join(";")), input: json!({"op": "cands", "path": p, "folder": folder}), failing_input_found: true });
+            }
+        }
+    }
+    let answers = model.ask_batch(&requests);
+    for ((p, folder), answer) in keys.iter().zip(answers.iter()) {
+        let real = std::panic::catch_unwind(|| vh::find_require_paths(Path::new(p), folder));
+        let real_wire = match &real {
+            Ok(v) => v.iter().map(|c| wire(c)).collect::<Vec<_>>().join(";"),
+            Err(_) => s("panic"),
+        };
+        report.case(Some(("cands", p.clone(), *folder)));
+        report.hist("candidates", &format!("{} items", real.as_ref().map(|v| v.len()).unwrap_or(0)));
+        if &real_wire != answer {
+            report.violation(Violation { kind: s("correspondence"), check: s("candidates"), what: format!("real `{}` model `{}`", real_wire, answer), input: json!({"op": "cands", "path": p, "folder": folder}), failing_input_found: oracle_cands_failed });
+        }
+    }
+    report.exhaustive.insert(format!("candidates: all path strings of <= {} segments x 12 module folder names", if thorough { 4 } else { 3 }), true);
+
+    // ---- C. locators
+    let mut cases = labelled_cases(thorough, &mut rng);
+    let labelled = cases.len();
+    cases.extend(random_cases(if thorough { 400_000 } else { 40_000 }, &mut rng));
+    report.exhaustive.insert(s("locators: all 64 subsets of the six files around the target, for every plain spelling x requiring file x mode x module folder name x sources map listed in the rule"), true);
+    if thorough {
+        report.exhaustive.insert(s("locators: all 64 subsets for the decorated spellings as well"), true);
+    }
+    let outcomes = run_find_cases(&cases, threads);
+    let mut oracle_failures: BTreeMap<&'static str, usize> = BTreeMap::new();
+    let mut mismatches = Vec::new();
+    for o in &outcomes {
+        let case = &cases[o.idx];
+        let nontrivial = case.present > 0 || o.real.starts_with("ok");
+        report.case(if nontrivial { Some(hash_of(&(format!("{:?}", case.mode), &case.proj, &case.files, &case.source, &case.req))) } else { None });
+        report.hist("locator-kind", case.kind);
+        report.hist("locator-result", if o.real.starts_with("ok") { "ok" } else { o.real.split(' ').take(2).collect::<Vec<_>>().join(" ").leak() });
+        if o.idx < labelled {
+            report.hist("candidates-present", &case.present.to_string());
+        }
+        if let Some(what) = &o.oracle {
+            if !case.region.is_empty() && known_entry(&known, case.region).is_some() {
+                report.hist("locator-failures-in-listed-regions", case.region);
+            } else {
+                *oracle_failures.entry(case.kind).or_default() += 1;
+                report.violation(Violation { kind: s("oracle"), check: format!("first-existing-candidate/{}", case.kind), what: what.clone(), input: case.to_json(), failing_input_found: true });
+            }
+        }
+        if o.real != o.model {
+            mismatches.push(o);
+        }
+    }
+    for o in mismatches {
+        let case = &cases[o.idx];
+        if o.oracle.is_some() && (case.region.is_empty() || known_entry(&known, case.region).is_none()) {
+            continue; // already reported as the property failing on this very input
+        }
+        // neighbours (same mode and requiring file, every layout and spelling) are all part of
+        // the enumeration above: a property failure near this input has been reported already
+        let found = !oracle_failures.is_empty();
+        report.violation(Violation { kind: s("correspondence"), check: format!("locator/{}", case.kind), what: format!("real `{}` model `{}`", o.real, o.model), input: case.to_json(), failing_input_found: found });
+    }
+    for c in cases.iter().step_by(cases.len() / 6 + 1) {
+        let (real, _) = real_find(c);
+        let mut v = c.to_json();
+        v["real"] = json!(real);
+        v["files"] = json!(c.files.iter().take(4).collect::<Vec<_>>());
+        report.sample(v);
+    }
+    // ---- D. convert_require between the path and luau modes
+    let conv_cases = convert_cases(&cases[..labelled], thorough);
+    let conv_outcomes = run_convert_cases(&conv_cases, threads);
+    let f28_known = known_entry(&known, "F28").is_some();
+    let f29_known = known_entry(&known, "F29").is_some();
+    for o in &conv_outcomes {
+        let cc = &conv_cases[o.idx];
+        let case = &cc.case;
+        report.case(if o.found_ok { Some(hash_of(&("conv", format!("{:?}{:?}", case.mode, cc.target), &case.proj, &case.files, &case.source, &case.req))) } else { None });
+        let direction = match (&case.mode, &cc.target) {
+            (Mode::Path { .. }, _) => "path->luau",
+            _ => "luau->path",
+        };
+        report.hist("convert-direction", direction);
+        // model answer: none | arg <hex> found <wire> hconv <b> again <wire>
+        let (model_arg, hconv) = if o.model == "none" {
+            (None, None)
+        } else {
+            let arg = o.model.strip_prefix("arg ").and_then(|r| r.split(' ').next()).and_then(crate::model::unhex).map(|b| String::from_utf8_lossy(&b).into_owned());
+            let h = o.model.split(" hconv ").nth(1).and_then(|r| r.split(' ').next()).map(|b| b == "true");
+            (arg, h)
+        };
+        let mut input = case.to_json();
+        input["op"] = json!("conv");
+        input["target"] = mode_to_json(&cc.target);
+        if let Some(what) = &o.oracle {
+            let region = if hconv == Some(false) {
+                "F28"
+            } else if what.starts_with("[shadowed]") {
+                "F29"
+            } else {
+                ""
+            };
+            report.hist("convert-oracle", if region.is_empty() { "fails" } else { region });
+            let excused = (region == "F28" && f28_known) || (region == "F29" && f29_known);
+            if !excused {
+                report.violation(Violation { kind: s("oracle"), check: format!("convert-keeps-target/{}", direction), what: what.clone(), input: input.clone(), failing_input_found: true });
+            }
+        } else if o.found_ok {
+            report.hist("convert-oracle", "keeps target");
+        } else {
+            report.hist("convert-oracle", "require does not resolve (left alone)");
+        }
+        let real_arg = match &o.real_arg {
+            Ok(a) => a.clone(),
+            Err(e) => format!("<{}>", e),
+        };
+        let agrees = match &model_arg {
+            None => o.model == "none" && real_arg == case.req,
+            Some(a) => a == &real_arg,
+        };
+        if !agrees && o.oracle.is_none() {
+            report.violation(Violation { kind: s("correspondence"), check: format!("generate-require/{}", direction), what: format!("real argument `{}` model `{}`", real_arg, o.model), input, failing_input_found: false });
+        } else if !agrees {
+            report.count("convert_mismatch_on_failing_input", 1);
+        }
+    }
+    // ---- E. end to end through bundling (oracle only: documented expectation vs inlined marker)
+    let mut pool: Vec<&Case> = cases[..labelled].iter().filter(|c| c.region.is_empty() && !c.req.contains(".d") && matches!(c.expect, Some(Expect::File(_)) | Some(Expect::NotFound))).collect();
+    rng.shuffle(&mut pool);
+    pool.truncate(if thorough { 40_000 } else { 6_000 });
+    let bundle_results = run_bundle_cases(&pool, threads);
+    let f30_known = known_entry(&known, "F30").is_some();
+    let f31_known = known_entry(&known, "F31").is_some();
+    for (case, got) in pool.iter().zip(bundle_results.iter()) {
+        let want = match &case.expect {
+            Some(Expect::File(loc)) => format!("marker {}", loc_string(loc)),
+            _ => s("error"),
+        };
+        report.case(Some(hash_of(&("bundle", format!("{:?}", case.mode), &case.proj, &case.files, &case.source, &case.req))));
+        let no_extension = want.starts_with("marker") && !(want.ends_with(".lua") || want.ends_with(".luau"));
+        let region = if alias_then_parent(&case.req) {
+            "F30"
+        } else if no_extension {
+            "F31"
+        } else {
+            ""
+        };
+        if &want == got {
+            report.hist("bundle", if want == "error" { "fails as documented (no candidate)" } else { "inlines the documented file" });
+            continue;
+        }
+        report.hist("bundle", if region.is_empty() { "differs" } else { region });
+        let excused = (region == "F30" && f30_known) || (region == "F31" && f31_known && (got == "panic" || got == "error"));
+        if !excused {
+            let mut input = case.to_json();
+            input["op"] = json!("bundle");
+            report.violation(Violation { kind: s("oracle"), check: format!("bundle-inlines-first-existing/{}", case.kind), what: format!("documented `{}`, bundled `{}`", want, got), input, failing_input_found: true });
+        }
+    }
+    report.count("bundle_cases", pool.len() as u64);
+    report.count("convert_cases", conv_cases.len() as u64);
+    report.count("locator_labelled_cases", labelled as u64);
+    report.count("model_requests", model.requests);
+}
+
+fn replay_known(report: &mut Report, known: &[Value]) {
+    for e in known {
+        if e["status"] != "known" {
+            continue;
+        }
+        let id = e["id"].as_str().unwrap_or("?");
+        let w = &e["witness"];
+        match w["op"].as_str() {
+            Some("norm") => {
+                let p = w["path"].as_str().unwrap_or("");
+                let keep = w["keep"].as_bool().unwrap_or(false);
+                let out = real_norm(keep, p);
+                let wrong = w["wrong_output"].as_str().unwrap_or("");
+                match oracle_norm(keep, p) {
+                    None => {}
+                    Some(what) if out.to_str() == Some(wrong) => report.known_finding(id, &what),
+                    Some(what) => report.violation(Violation { kind: s("finding-changed"), check: format!("known-finding/{}", id), what, input: w.clone(), failing_input_found: true }),
+                }
+            }
+            Some("find") => {
+                if let Some(case) = Case::from_json(w) {
+                    let (real, _) = real_find(&case);
+                    let right = w["right_output"].as_str().unwrap_or("");
+                    let wrong = w["wrong_output"].as_str().unwrap_or("");
+                    if real == right {
+                        // repaired
+                    } else if real == wrong {
+                        report.known_finding(id, &format!("{}: `{}` from `{}` gives `{}`, documented `{}`", e["site"].as_str().unwrap_or(""), case.req, case.source, real, right));
+                    } else {
+                        report.violation(Violation { kind: s("finding-changed"), check: format!("known-finding/{}", id), what: format!("expected `{}` (recorded defect) or `{}` (repaired), got `{}`", wrong, right, real), input: w.clone(), failing_input_found: true });
+                    }
+                }
+            }
+            Some("bundle") => {
+                if let Some(case) = Case::from_json(w) {
+                    let got = real_bundle(&case);
+                    let right = w["right_output"].as_str().unwrap_or("");
+                    let wrong = w["wrong_output"].as_str().unwrap_or("");
+                    if got == right {
+                    } else if got == wrong {
+                        report.known_finding(id, &format!("bundling `require(\"{}\")` from `{}`: `{}`, documented `{}`", case.req, case.source, got, right));
+                    } else {
+                        report.violation(Violation { kind: s("finding-changed"), check: format!("known-finding/{}", id), what: format!("expected `{}` (recorded defect) or `{}` (repaired), got `{}`", wrong, right, got), input: w.clone(), failing_input_found: true });
+                    }
+                }
+            }
+            Some("conv") => {
+                if let (Some(case), Some(target)) = (Case::from_json(w), mode_from_json(&w["target"])) {
+                    let arg = real_convert(&case, &target);
+                    let (_, failure) = convert_oracle(&case, &target, &arg);
+                    let wrong = w["wrong_output"].as_str().unwrap_or("");
+                    match (failure, &arg) {
+                        (None, _) => {}
+                        (Some(what), Ok(a)) if a == wrong => report.known_finding(id, &what),
+                        (Some(what), _) => report.violation(Violation { kind: s("finding-changed"), check: format!("known-finding/{}", id), what, input: w.clone(), failing_input_found: true }),
+                    }
+                }
+            }
+            _ => {}
+        }
+    }
+}
+
+fn check_corpus_entry(report: &mut Report, model: &mut Model, v: &Value, known: &[Value]) {
+    let input = if v["input"].is_object() { &v["input"] } else { v };
+    // witnesses of listed findings live in the corpus too; they are judged by `replay_known`
+    if known.iter().any(|e| &e["witness"] == input) {
+        return;
+    }
+    match input["op"].as_str() {
+        Some("norm") => {
+            let p = input["path"].as_str().unwrap_or("");
+            let keep = input["keep"].as_bool().unwrap_or(false);
+            let k = if keep { "1" } else { "0" };
+            let real = wire(&real_norm(keep, p));
+            let m = model.ask(&format!("c15.norm {} {}", k, hx(p)));
+            let in_h = model.ask(&format!("c15.H {} {}", k, hx(p))) == "true";
+            report.case(Some(("corpus-norm", keep, p.to_owned())));
+            if let Some(what) = oracle_norm(keep, p).filter(|_| in_h) {
+                report.violation(Violation { kind: s("oracle"), check: s("corpus/normalize"), what, input: input.clone(), failing_input_found: true });
+            } else if real != m {
+                report.violation(Violation { kind: s("correspondence"), check: s("corpus/normalize"), what: format!("real `{}` model `{}`", real, m), input: input.clone(), failing_input_found: false });
+            }
+        }
+        Some("conv") => {
+            if let (Some(case), Some(target)) = (Case::from_json(input), mode_from_json(&input["target"])) {
+                let arg = real_convert(&case, &target);
+                let (before, failure) = convert_oracle(&case, &target, &arg);
+                let m = model.ask(&format!("c15.conv {} {} {} {} {} {}", mode_wire(&case.mode), mode_wire(&target), hx(&case.proj), list_wire(&case.files), hx(&case.source), hx(&case.req)));
+                report.case(Some(("corpus-conv", input.to_string())));
+                let hconv = m.split(" hconv ").nth(1).and_then(|r| r.split(' ').next()).map(|b| b == "true");
+                let model_arg = m.strip_prefix("arg ").and_then(|r| r.split(' ').next()).and_then(crate::model::unhex).map(|b| String::from_utf8_lossy(&b).into_owned());
+                let shadowed = failure.as_deref().map(|w| w.starts_with("[shadowed]")).unwrap_or(false);
+                let excused = (hconv == Some(false) && known_entry(known, "F28").is_some()) || (shadowed && known_entry(known, "F29").is_some());
+                if let Some(what) = failure.filter(|_| !excused) {
+                    report.violation(Violation { kind: s("oracle"), check: s("corpus/convert"), what, input: input.clone(), failing_input_found: true });
+                } else if before.is_some() && arg.as_ref().ok() != model_arg.as_ref() {
+                    report.violation(Violation { kind: s("correspondence"), check: s("corpus/convert"), what: format!("real `{:?}` model `{}`", arg, m), input: input.clone(), failing_input_found: false });
+                }
+            }
+        }
+        Some("find") => {
+            if let Some(case) = Case::from_json(input) {
+                let (real, _) = real_find(&case);
+                let m = model.ask(&case.model_request());
+                report.case(Some(("corpus-find", input.to_string())));
+                if real != m {
+                    report.violation(Violation { kind: s("correspondence"), check: s("corpus/locator"), what: format!("real `{}` model `{}`", real, m), input: input.clone(), failing_input_found: false });
+                }
+            }
+        }
+        _ => {}
+    }
+}
+
+fn run_replay(report: &mut Report, file: &str) {
+    let text = match std::fs::read_to_string(file) {
+        Ok(t) => t,
+        Err(e) => {
+            report.notes.push(format!("cannot read replay file: {}", e));
+            return;
+        }
+    };
+    let v: Value = match serde_json::from_str(&text) {
+        Ok(v) => v,
+        Err(e) => {
+            report.notes.push(format!("replay file is not JSON: {}", e));
+            return;
+        }
+    };
+    let mut model = spawn_model();
+    check_corpus_entry(report, &mut model, &v, &known_findings("C15"));
+    let input = if v["input"].is_object() { &v["input"] } else { &v };
+    if input["op"] == "find" {
+        if let Some(case) = Case::from_json(input) {
+            let (real, _) = real_find(&case);
+            report.notes.push(format!("real: {} | model: {}", real, model.ask(&case.model_request())));
+        }
+    } else if input["op"] == "cands" {
+        let p = input["path"].as_str().unwrap_or("");
+        let folder = input["folder"].as_str().unwrap_or("");
+        let real: Vec<String> = vh::find_require_paths(Path::new(p), folder).iter().map(|c| wire(c)).collect();
+        let m = model.ask(&format!("c15.cands {} {}", hx(p), hx(folder)));
+        report.case(Some(("replay-cands", p.to_owned())));
+        if real.join(";") != m {
+            report.violation(Violation { kind: s("correspondence"), check: s("replay/candidates"), what: format!("real `{}` model `{}`", real.join(";"), m), input: input.clone(), failing_input_found: false });
+        }
+    }
 }
